@@ -33,6 +33,9 @@ func (d *datadogCFRequestDec) Decode() error {
 	d.DDSource = d.ctx.ctxMap["ddsource"]
 	for scanner.Scan() {
 		bytes := scanner.Bytes()
+		if len(bytes) == 0 {
+			continue
+		}
 		err := d.DecodeLine(bytes)
 		if err != nil {
 			return customErrors.NewUnmarshalError(err)
